@@ -506,7 +506,9 @@ class MarkdownNormalizer(Renderer):
             # Don't skip next blank line or suppress item break for hard breaks
             return result
         else:
-            result = f"{self._prefix}{'#' * element.level} {children_content}\n\n"
+            # The blank line after the heading stays inside the container (e.g. ">" in a quote).
+            blank_line = self._second_prefix.rstrip()
+            result = f"{self._prefix}{'#' * element.level} {children_content}\n{blank_line}\n"
             self._prefix = self._second_prefix
             # Skip the next blank line since we already added one
             self._skip_next_blank_line = True
